@@ -2,7 +2,7 @@
     distinctness of random UUIDs are properties of the runtime: race detector and ID multiset in the harness -- partial).
     Threads are programs over atomic storage operations (the storage contract), interleaved under an arbitrary schedule. *)
 From Saml Require Import Base.Bytes Idp.FactTypes Gen.Facts Idp.Sso Idp.Callback Idp.AttrQuery Idp.Logout Conc.Interleave Conc.Handlers
-  Proofs.SsoAccept Proofs.SsoLocal Proofs.AttrLocal.
+  Proofs.SsoProofs Proofs.SsoAccept Proofs.SsoLocal Proofs.AttrLocal Conc.SsoProg.
 From Coq Require Import List. Import ListNotations.
 
 (** every schedule, any number of threads that only read: a finished thread's result is its result alone on the initial storage *)
@@ -64,6 +64,30 @@ Theorem C15_attrquery_local : forall decode lookup1 lookup2 verify_sig attr_locs
   attrquery_handler decode lookup2 verify_sig attr_locs userinfo2 cert_ok1 cert_ok2 sign_ok entity_id c.
 Proof. exact attrquery_local. Qed.
 
+(** the SSO handler in that framework: a program that reads the response key, reads the provider registered under the
+    request's own Issuer and -- only when every check passed -- creates one record; sequentially it is the handler model
+    with the storage as oracles and an allocating CreateAuthRequest, and it never looks up a stored request *)
+Theorem C15_sso_program : forall e_form decode verify_redirect verify_post instant_of now want_signed sso_locs entity_id fresh (s : store val),
+  fst (interp val fresh (sso_prog e_form decode verify_redirect verify_post instant_of now want_signed sso_locs entity_id sso_steps) s) =
+  replies (sso_handler e_form decode (S_of s) verify_redirect verify_post instant_of now (fun _ => Some (fresh (next val s))) want_signed sso_locs entity_id (C_of s) sso_steps).
+Proof. intros. apply sso_prog_correct. exact current_chain_wf8. Qed.
+(** N concurrent SSO requests, every schedule: each finished request was answered as the handler model answers it alone on
+    the INITIAL storage (CreateAuthRequest handing out some id), and the login redirects of two different requests never
+    name the same stored request *)
+Theorem C15_concurrent_sso : forall decode verify_redirect verify_post instant_of now want_signed sso_locs entity_id fresh,
+  (forall m n, fresh m = fresh n -> m = n) ->
+  forall (forms : list (option form)) (s0 : store val) (sched : schedule),
+  let pool := map (sso_thread decode verify_redirect verify_post instant_of now want_signed sso_locs entity_id sso_steps) forms in
+  (forall i f a, nth_error forms i = Some f -> result val i (fst (run_sched val fresh sched (pool, s0))) = Some a ->
+     exists id, a = replies (sso_handler f decode (S_of s0) verify_redirect verify_post instant_of now (fun _ => Some id) want_signed sso_locs entity_id (C_of s0) sso_steps)) /\
+  (forall i j fi fj ai aj x, nth_error forms i = Some fi -> nth_error forms j = Some fj ->
+     result val i (fst (run_sched val fresh sched (pool, s0))) = Some ai -> result val j (fst (run_sched val fresh sched (pool, s0))) = Some aj ->
+     In (RLogin x) ai -> In (RLogin x) aj -> i = j).
+Proof.
+  intros decode verify_redirect verify_post instant_of now want_signed sso_locs entity_id fresh Hinj forms s0 sched.
+  exact (concurrent_sso_isolated decode verify_redirect verify_post instant_of now want_signed sso_locs entity_id fresh Hinj sso_steps current_chain_wf8 forms s0 sched).
+Qed.
+
 Print Assumptions C15_isolation.
 Print Assumptions C15_non_interference.
 Print Assumptions C15_ids_distinct.
@@ -73,3 +97,5 @@ Print Assumptions C15_callback_local.
 Print Assumptions C15_logout_local.
 Print Assumptions C15_sso_local.
 Print Assumptions C15_attrquery_local.
+Print Assumptions C15_sso_program.
+Print Assumptions C15_concurrent_sso.
